@@ -242,6 +242,19 @@ def check_network(res, rng, names_pool):
         if bad is not None:
             res.violate("network-row-sums-differ-from-excess-of-empirical-jdd", topology=nme, key=bad, row=rows.get(nme, {}).get(bad), q=qs[i].get(bad),
                         names=names, shapes=shapes, classes=classes); return names
+    if len(names) >= 2 and rng.random() < 0.4:
+        # an extractor that is asked for a PREFIX of the annotated topologies only (the vertices' joint degrees keep every slot): the row sums
+        # of its matrices are still those topologies' excess distributions of the network's empirical joint degree distribution
+        m = rng.randint(1, len(names) - 1)
+        exp = sut("JointExcessJointDegree(prefix of the names)", gcmpy.JointExcessJointDegree, {TN.NETWORK: G, TN.EDGE_NAMES: list(names[:m])})
+        matsp = sut("get_ejks (prefix of the names)", exp.get_ejks)
+        rowsp = sut("get_excess_joint_distributions(prefix matrices)", gcmpy.JointExcessFromEjk.get_excess_joint_distributions, matsp)
+        res.count("network_checks_with_a_prefix_of_the_names")
+        for i, nme in enumerate(names[:m]):
+            bad = same_dist(rowsp.get(nme, {}), qs[i])
+            if bad is not None:
+                res.violate("network-row-sums-differ-from-excess-of-empirical-jdd", topology=nme, key=bad, row=rowsp.get(nme, {}).get(bad), q=qs[i].get(bad),
+                            names=names, names_given_to_the_extractor=names[:m], shapes=shapes, classes=classes); return names
     if rng.random() < 0.5 and G.number_of_edges() >= 4:
         # history: the caller keeps the matrices it got, the network is edited in place (degree-preserving swaps inside one topology:
         # every joint degree stays, the mixing changes), the extractor is asked again - the matrices obtained FIRST still describe the
